@@ -986,6 +986,15 @@ def random_item2(rng):
     for t in ts:
         parts[rng.randrange(nattr)].append(t)
 
+    # now and then one trait is requested by two attributes (a second generator, so that the main stream stays what it was)
+    r2 = random.Random(repr(ts) + repr(parts))
+    if nattr > 1 and r2.random() < 0.12:
+        t = r2.choice(ts)
+        others = [q for q in parts if t not in q]
+        if others:
+            q = r2.choice(others)
+            q.insert(r2.randrange(len(q) + 1), t)
+
     def tmeta(t):
         if t in ('Zeroize', 'ZeroizeOnDrop') and rng.random() < 0.2:
             return ('L', P(t), [('NV', P('crate'), ('EPath', (rng.random() < 0.5, ['zz'])))], None)
